@@ -19,10 +19,11 @@ import (
 )
 
 type checker struct {
-	res   *wkpool.CaseResult
-	seen  map[string]bool
-	rep   any
-	rjson json.RawMessage
+	perClass map[string]int
+	res      *wkpool.CaseResult
+	seen     map[string]bool
+	rep      any
+	rjson    json.RawMessage
 }
 
 func newChecker(rep any) *checker {
@@ -30,6 +31,15 @@ func newChecker(rep any) *checker {
 }
 
 func (c *checker) viol(class, format string, a ...any) {
+	// a broken deep tree can produce thousands of findings of one class: keep the first few per case and do not
+	// even format the rest (arguments may be large)
+	if c.perClass == nil {
+		c.perClass = map[string]int{}
+	}
+	c.perClass[class]++
+	if c.perClass[class] > 6 {
+		return
+	}
 	what := fmt.Sprintf(format, a...)
 	if len(what) > 500 {
 		what = what[:500] + "…"
@@ -368,7 +378,12 @@ func (c *checker) checkFlame(f *flame, want trie, j int, hasNoLines bool, where 
 	}
 }
 
-func show(path string) string { return strings.ReplaceAll(path, sep, ">") }
+func show(path string) string {
+	if len(path) > 160 {
+		return fmt.Sprintf("%s…(depth %d)", strings.ReplaceAll(path[:80], sep, ">"), strings.Count(path, sep)+1)
+	}
+	return strings.ReplaceAll(path, sep, ">")
+}
 
 func barsBrief(bs []bar) string {
 	var p []string
